@@ -990,6 +990,9 @@ def _read_asn1_integer(
         header=header,
         hint=hint,
     )
+    if not raw_int:
+        raise ValueError(f"Invalid ASN.1 INTEGER value{f' for {hint}' if hint else ''}: no content octets")
+
     # int.from_bytes handles the two's complement carry across any number of
     # trailing zero octets (e.g. -65536 is FF 00 00).
     int_value = int.from_bytes(raw_int, byteorder="big", signed=True)
@@ -1011,6 +1014,9 @@ def _read_asn1_object_identifier(
         header=header,
         hint=hint,
     )
+
+    if not raw_oid:
+        raise ValueError(f"Invalid ASN.1 OBJECT IDENTIFIER value{f' for {hint}' if hint else ''}: no content octets")
 
     first_element = struct.unpack("B", raw_oid[:1])[0]
     second_element = first_element % 40
